@@ -68,10 +68,13 @@ def main():
                 finally:
                     sh('git -C %s checkout -- .' % wt)
                 ok = (c == want) and (want == 0 or bool(rules))
-                print('%-12s %-9s exit=%d %s' % (sid, kind[:-1], c, 'ok' if ok else ('MISSED' if want == 1 else ('CHECKER-FAILURE' if c == 2 else 'FALSE ALARM'))))
+                left_open = None
+                if not ok and c != 2 and os.path.exists(d + '/meta.json'):
+                    left_open = json.load(open(d + '/meta.json')).get('left_open')     # documented: not hardened, see DESIGN 11.3a
+                print('%-12s %-9s exit=%d %s' % (sid, kind[:-1], c, 'ok' if ok else ('MISSED' if want == 1 else ('CHECKER-FAILURE' if c == 2 else 'FALSE ALARM'))) + (' (left open, documented)' if left_open else ''))
                 for r in rules[:12]: print('      %s :: %s' % (r[0], r[3][:170]))
                 if c == 2: print(o[-1500:])
-                if not ok: bad.append(sid)
+                if not ok and not left_open: bad.append(sid)
                 if write:
                     mp = d + '/meta.json'
                     meta = json.load(open(mp)) if os.path.exists(mp) else {}
